@@ -23,7 +23,7 @@ import traceback
 HERE = os.path.dirname(os.path.abspath(__file__))
 VERIF = os.path.dirname(HERE)
 sys.path.insert(0, HERE)
-sys.path.insert(0, '/repo')
+sys.path.insert(0, os.environ.get('VERIF_REPO', '/repo'))   # default: /repo's working tree
 
 import tlc  # noqa: E402
 import findings  # noqa: E402
